@@ -532,6 +532,14 @@ func (c *Core) drawC02(ch *Chooser, g *Gen, s *Sim, tier string) {
 	}
 	valid := func(cl *Client) {
 		rec := plainRequest(g)
+		// mutated frames carry small message IDs of their own (77, 5, 7, one
+		// flipped byte): keep the valid requests far away from them
+		for {
+			rec.MsgID = int64(1<<24 + ch.Choose(1<<30))
+			if c.reqs[rec.MsgID] == nil {
+				break
+			}
+		}
 		t, _ := rec.TLV()
 		add(cl, rec, t.Enc(), false, "")
 	}
